@@ -5,6 +5,7 @@ package xds
 
 import (
 	"fmt"
+	"regexp"
 	"sort"
 	"strings"
 
@@ -1139,11 +1140,16 @@ func makeSpiffePattern(src rbacService) string {
 	}
 
 	// Match on any namespace or service if it is a wildcard, or on a specific value otherwise.
+	// Exact values are literals, not patterns: "web.v1" must not match "webxv1".
 	if ns == structs.WildcardSpecifier {
 		ns = anyPath
+	} else {
+		ns = regexp.QuoteMeta(ns)
 	}
 	if svc == structs.WildcardSpecifier {
 		svc = anyPath
+	} else {
+		svc = regexp.QuoteMeta(svc)
 	}
 
 	// If service is imported from a peer, the SpiffeID must
